@@ -812,12 +812,21 @@ def case_list(chk: Check):
         if not quick or rng.random() < 0.5:
             ops += [["restore", hows[1]], ["act", rng.randrange(1000)]]
         cases.append((algo, "vector", None, wspec, rng.randrange(1 << 20), ops))
-    if quick:       # one random non-vector family per run
+    if quick:       # two random non-vector families per run …
         for _ in range(2):
             algo = rng.choice(A.ALGOS)
             fam = rng.choice(["image", "dict", "discrete"])
             if A.supported(algo, fam) and not A.known_broken(algo, fam):
                 cases.append((algo, fam, None, None, rng.randrange(1 << 20), gen_history(rng, length, algo, None)))
+        # … and every run at least one image (CNN encoder) and one dict (multi-input encoder) agent: what a network
+        # rebuilt from its init_dict computes depends on the encoder class, so no quick run may skip a class by chance
+        for fam, pool in (("image", ["DQN", "TD3", "CQN", "PPO"]), ("dict", ["DDPG", "DQN", "PPO"])):
+            if True:
+                algo = rng.choice([a for a in pool if A.supported(a, fam) and not A.known_broken(a, fam)])
+                # checkpoint the agent AS CONSTRUCTED first (a later mutation rebuilds the networks from their init_dict
+                # and would hide a constructor / init_dict discrepancy), then the usual history
+                ops = [["act", rng.randrange(1000)], ["restore", "load"], ["act", rng.randrange(1000)]] + gen_history(rng, length, algo, None)
+                cases.append((algo, fam, None, None, rng.randrange(1 << 20), ops))
     return cases
 
 
